@@ -164,5 +164,71 @@ pub fn run(r: &mut Runner) -> &'static str {
         None
     };
     r.bulk("c06.small-inputs", Some("all inputs of <= 2 bytes; all 3/4-byte inputs over an 8-byte alphabet; 13 signature prefixes x 0-2 alphabet bytes"), &work, &judge);
+    // the full signature followed by every 1- and 2-byte continuation, by 3 and 4 bytes with every control pair and a
+    // few length bytes (buffers of 13..=16 bytes: still a possible v2 header while fewer than 16 bytes are there)
+    let sig_work = |shard: usize, nshards: usize, st: &mut Stats, _stop: &AtomicBool| -> Option<(Vec<u8>, Fail)> {
+        for a in 0..=255u8 {
+            if a as usize % nshards != shard {
+                continue;
+            }
+            let mut v = SIG.to_vec();
+            v.push(a);
+            if let Err(f) = judge(&v, st) {
+                return Some((v, f));
+            }
+            for b in 0..=255u8 {
+                let mut v = SIG.to_vec();
+                v.extend_from_slice(&[a, b]);
+                if let Err(f) = judge(&v, st) {
+                    return Some((v, f));
+                }
+                for c in [0u8, 1, 0x0D, b'P', 0xFF] {
+                    let mut v = SIG.to_vec();
+                    v.extend_from_slice(&[a, b, c]);
+                    if let Err(f) = judge(&v, st) {
+                        return Some((v, f));
+                    }
+                    for d in [0u8, 1, 12, 0x0A, 0xFF] {
+                        let mut v = SIG.to_vec();
+                        v.extend_from_slice(&[a, b, c, d]);
+                        if let Err(f) = judge(&v, st) {
+                            return Some((v, f));
+                        }
+                    }
+                }
+            }
+        }
+        None
+    };
+    r.bulk("c06.signature-continuations", Some("the 12-byte signature followed by every 1-byte and 2-byte continuation, and by every control-byte pair with 5 third and 5 fourth bytes"), &sig_work, &judge);
+    // all short token sequences of the v1 grammar (every way a text line can begin, break off or end), alone and behind a signature prefix
+    const TOK: &[&[u8]] = &[b"PROXY", b" ", b"UNKNOWN", b"TCP4", b"TCP6", b"1.2.3.4", b"::1", b"80", b"\r", b"\n", b"x", b"\xc3\xa9", b"P", b"\0"];
+    let k: u32 = if r.quick() { 4 } else { 5 };
+    let tok_work = |shard: usize, nshards: usize, st: &mut Stats, stop: &AtomicBool| -> Option<(Vec<u8>, Fail)> {
+        for head in [&b""[..], &SIG[..], &SIG[..5], b"PROXY TCP4 1.2.3.4 5.6.7.8 80 443", b"PROXY UNKNOWN"] {
+            for len in 0..=k {
+                let total = (TOK.len() as u64).pow(len);
+                let mut idx = shard as u64;
+                while idx < total {
+                    if idx % 4096 < nshards as u64 && stop.load(std::sync::atomic::Ordering::Relaxed) {
+                        return None;
+                    }
+                    let mut v = head.to_vec();
+                    let mut q = idx;
+                    for _ in 0..len {
+                        v.extend_from_slice(TOK[(q % TOK.len() as u64) as usize]);
+                        q /= TOK.len() as u64;
+                    }
+                    if let Err(f) = judge(&v, st) {
+                        return Some((v, f));
+                    }
+                    idx += nshards as u64;
+                }
+            }
+        }
+        None
+    };
+    let tspace = format!("all sequences of <= {} tokens over a 14-token v1 alphabet, alone and behind 4 heads (full signature, 5-byte signature prefix, a complete TCP4 line without its ending, PROXY UNKNOWN)", k);
+    r.bulk("c06.tokens", Some(&tspace), &tok_work, &judge);
     "exploration"
 }
